@@ -1270,6 +1270,17 @@ def check_C08(ctx):
         f = gen.frame(c, i, pl)
         lines.append(f"parse {mode} {rng.choice([0, 1])} {rng.choice([0, 1])} {f.hex()}")
         meta.append(("strata", len(pl)))
+    # messages whose rendering decodes a (class, id) reference carried in the payload: every class byte
+    # × every id byte (quick: every id for known classes, a sample of ids for the others)
+    from pyubx2.ubxtypes_core import UBX_CLASSES
+    for c in range(256):
+        cb = bytes([c])
+        ids = range(256) if (cb in UBX_CLASSES or ctx.tier == "thorough") else sorted(set(rng.sample(range(256), 6) + [0, 255]))
+        for i in ids:
+            for (mc, mi, tail) in ((b"\x05", b"\x01", b""), (b"\x05", b"\x00", b""), (b"\x06", b"\x01", rng.choice([b"\x01", bytes(6)]))):
+                f = gen.frame(mc, mi, cb + bytes([i]) + tail)
+                lines.append(f"parse 0 1 {rng.choice([0, 1])} {f.hex()}")
+                meta.append(("clsidref", (mc + mi).hex()))
     # very long inputs (beyond what a length field can express)
     for cls, mid in ((b"\x01", b"\x02"), (b"\x77", b"\x00"), (b"\x06", b"\x01"), (b"\x13", b"\x00")):
         for n in (65535, 65536, 70000):
